@@ -53,6 +53,16 @@ Proof. exact channels_all. Qed.
 Theorem C19_rgba5551_alpha : forall v, nth 3 (decode_color v 2) 0 = if N.testbit v 0 then 255 else 0.
 Proof. exact rgba5551_alpha. Qed.
 
+(* layout and channels together, as the property words it: for a payload of bytes, pixel (X, Y) is an admissible decoding
+   (color_ok: every channel within one quantisation step, exact for 8/4/1-bit fields ...) of the element at its Z-order position *)
+Theorem C19_pixel_within_step : forall m fmt w h data X Y,
+  listed_color_format fmt = true -> w mod 8 = 0 -> h mod 8 = 0 -> w * h < 2 ^ 32 ->
+  lenN data = bytes_per_element fmt * (w * h) -> wfb data -> X < w -> Y < h ->
+  exists px c, decode_pixel_data m data w h fmt = Ok (flatten px) /\ length px = N.to_nat (w * h) /\
+    nth_error px (N.to_nat (Y * w + X)) = Some c /\
+    color_ok fmt (element (bytes_per_element fmt) data (tiled_index w X Y)) c = true.
+Proof. exact color_pixel_ok. Qed.
+
 (* ---- ETC1 / ETC1A4 ---- *)
 (* block decode = the published rules, for every 64-bit block the rules define (individual mode: all; differential
    mode: every base + delta in 0..31) and every alpha word.  decode_block has no mode parameter: the repaired code
@@ -154,6 +164,15 @@ Theorem C19_palette : forall pal_data img w h,
       nth_error px (N.to_nat (y * w + x)) =
         Some (decode_rgb5a3_pixel (be16_at pal_data (nth (N.to_nat (ci8_index w x y)) img 0))).
 Proof. exact palette_image_source. Qed.
+
+Theorem C19_palette_within_step : forall pal_data img w h,
+  1 <= w -> 1 <= h -> lenN img = align8 w * align4 h -> lenN pal_data mod 2 = 0 -> wfb pal_data ->
+  (forall x y, x < w -> y < h -> nth (N.to_nat (ci8_index w x y)) img 0 < lenN pal_data / 2) ->
+  exists px, tpl_ci8_image pal_data img w h = Ok (flatten px) /\ length px = N.to_nat (w * h) /\
+    forall x y, x < w -> y < h -> exists c,
+      nth_error px (N.to_nat (y * w + x)) = Some c /\
+      rgb5a3_ok (be16_at pal_data (nth (N.to_nat (ci8_index w x y)) img 0)) c = true.
+Proof. exact palette_pixel_ok. Qed.
 
 (* ---- the two build profiles ---- *)
 (* decode_pixel_data (all formats) and mila::decode give the same outcome in both modes for EVERY payload, as soon as
